@@ -95,7 +95,7 @@ def set_polya_requirement_strategy(flag, polya_requirement_strategy):
 
 
 def collect_reads_in_parallel(sample, chr_id, args):
-    current_chr_record = Fasta(args.reference, indexname=args.fai_file_name)[chr_id]
+    current_chr_record = Fasta(args.reference, indexname=args.fai_file_name, sequence_always_upper=True)[chr_id]
     if args.high_memory:
         current_chr_record = str(current_chr_record)
     read_grouper = create_read_grouper(args, sample, chr_id)
@@ -225,7 +225,7 @@ def construct_models_in_parallel(sample, chr_id, dump_filename, args, read_group
     # class-level caches must not outlive a chromosome of a sample (same process is reused when threads == 1)
     GraphBasedModelConstructor.detected_known_isoforms = set()
     GraphBasedModelConstructor.extended_transcript_ids = set()
-    current_chr_record = Fasta(args.reference, indexname=args.fai_file_name)[chr_id]
+    current_chr_record = Fasta(args.reference, indexname=args.fai_file_name, sequence_always_upper=True)[chr_id]
     multimapped_reads = defaultdict(list)
     multimap_loader = open(dump_filename + "_multimappers_" + chr_id, "rb")
     list_size = read_int(multimap_loader)
